@@ -12,7 +12,8 @@ RULE = ("address (uniform 24-bit, 0, all-ones, block edges, letter-rich) x DF 0.
         "oracle: icao() equals the address for those formats and None for every other DF; canonical half: two frames of one address in "
         "different formats and letter cases give the *same string*; adsb.icao / allcall.icao agree; strided sweep of the 2^24 addresses "
         "(all of them in the thorough tier). non-trivial = address and payload non-zero; canonical cases with a letter digit and "
-        "differing case or DF")
+        "differing case or DF"
+        ' Also: real DF17/20/21 frames with their known addresses (leg corpus), addresses chosen so that the AP field repeats six hex digits of the data part, four concurrent callers (leg threads).')
 ASSUMPTIONS = ["AP/PI overlay per Annex 10 as implemented in ref/crc24.py", "a frame of either length may carry any DF (icao() is documented length-agnostic)"]
 
 AP = (0, 4, 5, 16, 20, 21)
